@@ -17,7 +17,7 @@ RULE = ('each case = (operation, timeout grid point, stall kind, await point): a
         'non-trivial / distinct = distinct (operation, await point index, stall kind, grid point) tuples in which the stall actually began inside a call')
 ASSUMPTIONS = ['bound: elapsed virtual time since the stall began <= 6*(R+ + T+) + timeout_s+ + slack, with R, T the effective values (DESIGN C11)',
                'auth_timeout_s=None is excluded (documented "wait forever")', 'every transport call costs a small positive virtual time; empty reads at EOF cost idle_cost']
-EXPECT_PROBES = {'all': ['stall_began', 'filler_foreign', 'filler_unexpected', 'filler_endless', 'c11_trickle', 'c11_eof', 'c11_in_connect', 'c11_timeout_raised', 'c11_auth_wait']}
+EXPECT_PROBES = {'all': ['stall_began', 'filler_foreign', 'filler_unexpected', 'filler_endless', 'c11_trickle', 'c11_eof', 'c11_in_connect', 'c11_timeout_raised', 'c11_auth_wait', 'c11_mid_packet', 'c11_big_payload_stall']}
 OWN = ('returned-wrong-data', 'wrong-exception', 'bound-exceeded', 'hang', 'no-termination', 'timeout-order', 'fabricated-data')
 KINDS = ['shell', 'exec_out', 'streaming_shell', 'root', 'reboot', 'list', 'stat', 'pull', 'push']
 STALLS = ['silence', 'eof', 'trickle', 'foreign', 'unexpected', 'endless']
@@ -79,6 +79,18 @@ def generate(seed, tier):
     if op['op'] == 'pull':
         op['dest'] = 'bytesio'
         op['cb'] = g.pick([None, 'count'])
+    big_payload = g.chance(0.2) and op['op'] in ('shell', 'exec_out', 'streaming_shell', 'pull')
+    if big_payload:
+        # one large WRITE payload (>= 8 KiB): a stall inside it must still end at read_timeout_s
+        d['maxdata'] = 65536
+        d['cut_plans'] = [{'policy': 'whole', 'seed': 1}]
+        size = g.pick([9000, 20000, 60000])
+        if 'cmd' in op:
+            d['cmds'][op['cmd']]['content']['size'] = size
+            d['cmds'][op['cmd']]['cuts'] = None
+        else:
+            d['fs'][op['path']]['content']['size'] = size
+            d['fs'][op['path']]['records'] = [65536]
     kind = g.pick(STALLS)
     if kind == 'endless' and 'to' not in op:
         kind = g.pick(['silence', 'foreign', 'trickle'])
@@ -88,6 +100,16 @@ def generate(seed, tier):
     unit = max(R, T, 0.0)
     cfg = {'frag': g.pick(['whole', 'mixed']), 'call_cost': g.pick([1e-4, 1e-3]), 'idle_cost': max(unit / 40.0, 2e-3), 'step_cap': 60000}
     stall = {'kind': kind, 'pick': g.int(0, 1 << 30), 'cmdword': g.pick([0x4e45504f, 0x434e5953, 0x59414b4f])}
+    if kind in ('eof', 'trickle') and (big_payload or g.chance(0.3)):
+        stall['mid_packet'] = True      # the stall begins inside packet k (after some of its bytes), not between packets
+    if big_payload:
+        if kind not in ('eof', 'trickle'):
+            stall['kind'] = g.pick(['eof', 'trickle'])
+            stall['mid_packet'] = True
+        stall['target_big'] = True      # k = the packet with the largest payload (found in the probe run)
+        op['rt'] = g.pick([0.5, 3.0])
+        op['tt'] = g.pick([0.3, 2.0])
+        op.pop('to', None)
     scn = {'api': g.pick(['sync', 'async']), 'transport': 'mem', 'device': d, 'config': cfg, 'actors': [[conn, op]], 'object': {'banner': 'simhost', 'default_tt': default_tt}}
     return {'seed': seed, 'scn': scn, 'stall': stall}
 
@@ -151,12 +173,20 @@ def evaluate(case, tapes=None):
     k = st['pick'] % max(1, n + 1)
     if k > n:
         k = n
+    if st.get('target_big'):
+        pk = [e for e in run0.log.events if e[0] == 'pkt']
+        if pk:
+            k = max(pk, key=lambda e: e[5])[1] + 1
+            out['probes']['c11_big_payload_stall'] = 1
     s2 = copy.deepcopy(scn)
     in_connect = k == 0
     cT, cR = (min(ops[0]['tt'], ops[0]['rt']), ops[0]['rt']) if in_connect else (T, R)
     Tp = max(cT, 0.0)
     interval = {'trickle': max(0.9 * Tp, 0.05), 'foreign': max(min(0.3 * Tp, 0.5), 0.02), 'unexpected': max(min(0.3 * Tp, 0.5), 0.02), 'endless': 0.3}.get(st['kind'], 0.5)
     s2['device']['stall'] = {'after_pkts': k, 'kind': st['kind'], 'interval': interval, 'cmdword': st['cmdword']}
+    if st.get('mid_packet'):
+        s2['device']['stall']['mid_packet'] = True
+        out['probes']['c11_mid_packet'] = 1
     c2 = dict(case)
     c2['scn_stall'] = s2
     run, tape = run_scn(c2, 'scn_stall', 1, tapes, seed_idx=0)
